@@ -15,6 +15,12 @@ type Validator struct {
 // ValidateData validate JSON data by JSON Schema
 func (v Validator) ValidateData(data, schema []byte) error {
 
+	if !json.Valid(schema) {
+		// the compiler's decoder silently ignores malformed text after the
+		// first JSON value
+		return errors.New("schema is not a valid JSON document")
+	}
+
 	compiler := jsonschema.NewCompiler()
 
 	err := compiler.AddResource("temp.json", bytes.NewReader(schema))
